@@ -1,4 +1,5 @@
 import SynKitModel.Basic
+import SynKitModel.Views
 /-!
 # Model of `synkit/CRN/Hypergraph/hypergraph.py` (C15)
 
@@ -7,6 +8,10 @@ structures (species set, in/out indices, molecule labels, per-rule counters).
 The model keeps the same fields and updates them the way the code does; the
 `kept` field is a ghost (history) variable recording the species the caller
 chose to keep with `remove_species(..., prune_orphans=False)`.
+
+The string entry points (`add_rxn_from_str`, `parse_rxns`) are built from the text layer of
+`SynKitModel/Views.lean` (`parseLine` = everything of `add_rxn_from_str` before the final
+`add_rxn`, `parseSide` = `RXNSide.from_str`).
 -/
 namespace SynKit.Store
 
@@ -32,7 +37,7 @@ structure Store where
   kept : List String := []
 deriving Repr, Inhabited
 
-inductive Err | keyError | valueError
+inductive Err | keyError | valueError | indexError
 deriving Repr, DecidableEq
 
 /-- `RXNSide._normalize_any` on a mapping: drop non-positive counts, accumulate. -/
@@ -170,6 +175,75 @@ def Store.setMolMap (s : Store) (mapping : List (String × String)) (strict clea
   ({ s with mol := mapping.foldl (fun m kv => if kv.1 ∈ s.species then m.set kv.1 kv.2 else m) base },
    .ok ())
 
+/-! ## String entry points (`add_rxn_from_str`, `parse_rxns`) -/
+
+/-- Exceptions of the text layer as exceptions of the store: `ValueError` (no `>>`),
+`IndexError` (`int(toks[0])` on a part that consists of `*` only). The text layer never raises
+`KeyError`. -/
+def errOfViews : Views.Err → Err
+  | .keyError => .keyError
+  | .valueError => .valueError
+  | .indexError => .indexError
+
+/-- `add_rxn_from_str(reaction, rule, parse_rule_from_suffix=...)`: split off the `| rule=R`
+suffix, require `>>`, parse both sides (`RXNSide.from_str`; nothing has been touched when any of
+this raises), then `add_rxn(reactants, products, rule=rule_local)` with a generated id — the
+sides are `RXNSide` objects, so `add_rxn` uses them as they are. -/
+def Store.addFromStr (s : Store) (reaction : List Char) (rule : Option String) (parseSuffix : Bool) :
+    Store × Except Err String :=
+  match Views.parseLine rule parseSuffix reaction with
+  | .error e => (s, .error (errOfViews e))
+  | .ok pl => s.addNorm pl.reactants pl.products pl.rule none
+
+/-- `re.match`-style test of `\|\s*rule\s*=\s*[^\s]+` at the head of the text. -/
+def matchBarRuleAt : List Char → Bool
+  | '|' :: rest => (Views.matchRuleAt (rest.dropWhile Views.isWs)).isSome
+  | _ => false
+
+/-- `re.search(r"\|\s*rule\s*=\s*[^\s]+", line)` as a truth value. -/
+def searchBarRule : List Char → Bool
+  | [] => false
+  | c :: cs => matchBarRuleAt (c :: cs) || searchBarRule cs
+
+/-- The case split in the loop body of `parse_rxns`: which `rule=` and which
+`parse_rule_from_suffix=` the line is handed to `add_rxn_from_str` with.
+* explicit per-line rule, `prefer_suffix and parse_rule_from_suffix`: if the line has a
+  `| rule=…` suffix the suffix decides (`rule=None`, parse), otherwise the explicit rule, no parsing;
+* explicit per-line rule otherwise: the explicit rule, **no suffix parsing** (a suffix stays in
+  the text of the product side);
+* no explicit rule, `parse_rule_from_suffix`: `rule=None`, parse (`default_rule` is not used:
+  without a suffix the rule becomes `"r"`);
+* no explicit rule, no parsing: `default_rule`, no parsing. -/
+def lineArgs (defaultRule : String) (parseSuffix preferSuffix : Bool) (line : List Char)
+    (explicit : Option String) : Option String × Bool :=
+  match explicit with
+  | some r =>
+    if preferSuffix && parseSuffix then
+      if searchBarRule line then (none, true) else (some r, false)
+    else (some r, false)
+  | none => if parseSuffix then (none, true) else (some defaultRule, false)
+
+/-- `parse_rxns` on the normalised iterable of `(line, explicit_rule)` pairs (a mapping's
+`items()`, an iterable of `(line, rule)` tuples, or plain strings = `(line, None)`). Lines are
+added one after the other; the first exception propagates and everything added before it (and
+the counter the failing `add_rxn` may already have advanced) stays. -/
+def Store.parseRxns (s : Store) (items : List (List Char × Option String)) (defaultRule : String)
+    (parseSuffix preferSuffix : Bool) : Store × Except Err Unit :=
+  match items with
+  | [] => (s, .ok ())
+  | (line, explicit) :: rest =>
+    let args := lineArgs defaultRule parseSuffix preferSuffix line explicit
+    match s.addFromStr line args.1 args.2 with
+    | (s1, .ok _) => s1.parseRxns rest defaultRule parseSuffix preferSuffix
+    | (s1, .error e) => (s1, .error e)
+
+/-- `parse_rxns(lines, rules=rules, ...)` for a non-mapping `lines`: the length check
+(`ValueError`, before anything is added), then the zipped pairs. -/
+def Store.parseRxnsRules (s : Store) (lines : List (List Char)) (rules : List (Option String))
+    (defaultRule : String) (parseSuffix preferSuffix : Bool) : Store × Except Err Unit :=
+  if lines.length ≠ rules.length then (s, .error .valueError)
+  else s.parseRxns (lines.zip rules) defaultRule parseSuffix preferSuffix
+
 /-- Coefficient of a species on a side. -/
 def coeff (side : Side) (sp : String) : Int := (side.getD sp 0 : Nat)
 
@@ -189,6 +263,11 @@ inductive Op
   | copy (k j : Nat)
   | assignMol (k : Nat) (sp m : String)
   | setMolMap (k : Nat) (mapping : List (String × String)) (strict clear : Bool)
+  | addFromStr (k : Nat) (reaction : List Char) (rule : Option String) (parseSuffix : Bool)
+  | parseRxns (k : Nat) (items : List (List Char × Option String)) (defaultRule : String)
+      (parseSuffix preferSuffix : Bool)
+  | parseRxnsRules (k : Nat) (lines : List (List Char)) (rules : List (Option String))
+      (defaultRule : String) (parseSuffix preferSuffix : Bool)
 deriving Repr
 
 inductive Out | ok | okId (id : String) | err (e : Err) | badOp
@@ -235,6 +314,23 @@ def step (w : World) (op : Op) : World × Out :=
     match w[k]? with
     | none => (w, .badOp)
     | some s => let (s', r) := s.setMolMap mapping strict clear; (w.put k s', outOf r)
+  | .addFromStr k reaction rule parseSuffix =>
+    match w[k]? with
+    | none => (w, .badOp)
+    | some s => match s.addFromStr reaction rule parseSuffix with
+      | (s', .ok i) => (w.put k s', .okId i)
+      | (s', .error e) => (w.put k s', .err e)
+  | .parseRxns k items defaultRule parseSuffix preferSuffix =>
+    match w[k]? with
+    | none => (w, .badOp)
+    | some s =>
+      let (s', r) := s.parseRxns items defaultRule parseSuffix preferSuffix; (w.put k s', outOf r)
+  | .parseRxnsRules k lines rules defaultRule parseSuffix preferSuffix =>
+    match w[k]? with
+    | none => (w, .badOp)
+    | some s =>
+      let (s', r) := s.parseRxnsRules lines rules defaultRule parseSuffix preferSuffix
+      (w.put k s', outOf r)
 
 def run (w : World) (ops : List Op) : World := ops.foldl (fun w op => (step w op).1) w
 
